@@ -23,5 +23,13 @@ CHECK = {
             "shards": {"quick": 16, "thorough": 16},
             "budget_s": {"quick": 100, "thorough": 1500},
         },
+        {
+            # free-running pass for the race detector: no shims, no bubble
+            "name": "c10-race", "pkg": CC, "race": True, "tiers": ["thorough"],
+            "harness": ["connectconformance/c10_test.go", "connectconformance/fakeproc_test.go", "connectconformance/gateutil_test.go"],
+            "test": "^TestVerifC10Race$",
+            "shards": {"quick": 8, "thorough": 16},
+            "budget_s": {"quick": 120, "thorough": 600},
+        },
     ],
 }
